@@ -564,7 +564,7 @@ func runWorker(exe string, c *Check, tier string, k, n int, seed int64, budget t
 	var stderr bytes.Buffer
 	cmd.Stderr = &tailWriter{buf: &stderr, max: 64 << 10}
 	cmd.Stdout = os.Stderr
-	cmd.Env = append(os.Environ(), "GOMAXPROCS=2", "TZ=UTC", "GOTRACEBACK=single")
+	cmd.Env = append(os.Environ(), "GOMAXPROCS=1", "GOGC=400", "TZ=UTC", "GOTRACEBACK=single")
 	if err := cmd.Start(); err != nil {
 		fmt.Fprintln(os.Stderr, "cannot start worker:", err)
 		return nil, nil
